@@ -24,28 +24,44 @@ rc=$?
 V=$(pwd)
 S=$(mktemp -d /tmp/verif-replay.XXXXXX) || exit $rc
 trap 'rm -rf "$S"' EXIT INT TERM
-# scratch copy of the working tree (no .git needed: git apply works on plain directories)
-(cd "$REPO" && tar --exclude=.git -cf - .) | (cd "$S" && tar -xf -) || { echo "SELFTEST-WARNING: cannot copy $REPO"; exit $rc; }
+W="${VERIF_REPLAY_WORKERS:-8}"
+# W scratch copies of the working tree (no .git needed: git apply works on plain directories); the
+# stored diffs are dealt out to the copies, each copy replays its share one after the other
+i=0
+while [ $i -lt $W ]; do
+  mkdir -p "$S/w$i" && (cd "$REPO" && tar --exclude=.git -cf - .) | (cd "$S/w$i" && tar -xf -) || { echo "SELFTEST-WARNING: cannot copy $REPO"; exit $rc; }
+  i=$((i+1))
+done
 base="$S/.base"; "$V/bin/protolint" -repo "$REPO" -verif "$V" -property "$P" -no-evidence 2>/dev/null | grep '^FIRED' | awk '{print $3}' | sort > "$base"
-caught=0; missed=0; na=0
+# job list: kind<TAB>id<TAB>diff
+: > "$S/jobs"
 for sd in "$V"/seeded/"$P"-*/; do
-  [ -f "$sd/patch.diff" ] || continue
-  id=$(basename "$sd")
-  if ! (cd "$S" && git apply --check "$sd/patch.diff" 2>/dev/null); then na=$((na+1)); continue; fi
-  (cd "$S" && git apply "$sd/patch.diff")
-  new=$("$V/bin/protolint" -repo "$S" -verif "$V" -property "$P" -no-evidence 2>/dev/null | grep '^FIRED' | awk '{print $3}' | sort | comm -13 "$base" - | head -1)
-  (cd "$S" && git apply -R "$sd/patch.diff")
-  if [ -n "$new" ]; then caught=$((caught+1)); else missed=$((missed+1)); echo "SELFTEST-WARNING: seeded change $id is not reported by $P"; fi
+  [ -f "$sd/patch.diff" ] && printf 'seed\t%s\t%s\n' "$(basename "$sd")" "$sd/patch.diff" >> "$S/jobs"
 done
-silent=0; noisy=0; bna=0
 for bd in "$V"/benign/*.diff; do
-  [ -f "$bd" ] || continue
-  if ! (cd "$S" && git apply --check "$bd" 2>/dev/null); then bna=$((bna+1)); continue; fi
-  (cd "$S" && git apply "$bd")
-  new=$("$V/bin/protolint" -repo "$S" -verif "$V" -property "$P" -no-evidence 2>/dev/null | grep '^FIRED' | awk '{print $3}' | sort | comm -13 "$base" - | head -1)
-  (cd "$S" && git apply -R "$bd")
-  if [ -z "$new" ]; then silent=$((silent+1)); else noisy=$((noisy+1)); echo "SELFTEST-WARNING: behaviour-preserving refactoring $(basename "$bd") makes $P report $new"; fi
+  [ -f "$bd" ] && printf 'benign\t%s\t%s\n' "$(basename "$bd")" "$bd" >> "$S/jobs"
 done
+worker() {
+  w=$1; n=0
+  while IFS="$(printf '\t')" read -r kind id diff; do
+    n=$((n+1))
+    [ $(( (n-1) % W )) -eq "$w" ] || continue
+    D="$S/w$w"
+    if ! (cd "$D" && git apply --check "$diff" 2>/dev/null); then echo "$kind na $id"; continue; fi
+    (cd "$D" && git apply "$diff")
+    new=$("$V/bin/protolint" -repo "$D" -verif "$V" -property "$P" -no-evidence 2>/dev/null | grep '^FIRED' | awk '{print $3}' | sort | comm -13 "$base" - | head -1)
+    (cd "$D" && git apply -R "$diff")
+    if [ -n "$new" ]; then echo "$kind fired $id $new"; else echo "$kind quiet $id"; fi
+  done < "$S/jobs" > "$S/out$w"
+}
+i=0
+while [ $i -lt $W ]; do worker $i & i=$((i+1)); done
+wait
+cat "$S"/out* > "$S/results" 2>/dev/null
+caught=$(grep -c '^seed fired' "$S/results"); missed=$(grep -c '^seed quiet' "$S/results"); na=$(grep -c '^seed na' "$S/results")
+silent=$(grep -c '^benign quiet' "$S/results"); noisy=$(grep -c '^benign fired' "$S/results"); bna=$(grep -c '^benign na' "$S/results")
+grep '^seed quiet' "$S/results" | while read -r _ _ id; do echo "SELFTEST-WARNING: seeded change $id is not reported by $P"; done
+grep '^benign fired' "$S/results" | while read -r _ _ id new; do echo "SELFTEST-WARNING: behaviour-preserving refactoring $id makes $P report $new"; done
 echo "REPLAY $P: seeded changes $caught caught, $missed missed, $na not applicable; refactorings $silent silent, $noisy noisy, $bna not applicable"
 # record what the replay covered in the evidence file the checker just wrote
 if command -v jq >/dev/null 2>&1 && [ -f "$V/evidence/$P.json" ]; then
